@@ -211,9 +211,27 @@ fn check_restart(rng: &mut Rng, iters: u64) -> Option<Found> {
     None
 }
 
+/// open finding (lemma_newer_write_supersedes): the expiry of a newer plain SET does not supersede an older TTL on peers
+fn check_newer_supersedes() -> Option<Found> {
+    for (told, tnew) in [(1u64, 5u64), (3, 4), (7, 8)] {
+        let mut old_v = ReplicatedValue::with_value(SDS::from_str("v1"), lc(told, 1));
+        old_v.expiry_ms = Some(52_000);
+        let new_v = ReplicatedValue::with_value(SDS::from_str("v2"), lc(tnew, 2)); // what record_write(k, v2, None) stores on the writer
+        for m in [old_v.merge(&new_v), new_v.merge(&old_v)] {
+            if m.expiry_ms != new_v.expiry_ms || m.get().map(|s| s.as_bytes().to_vec()) != Some(b"v2".to_vec()) {
+                return Some(Found { input: format!("peer holds {} ; newer write {} arrives", obs(&old_v), obs(&new_v)),
+                    observed: format!("merge = {}", obs(&m)),
+                    required: format!("the newer write supersedes the older value entirely: {}", obs(&new_v)) });
+            }
+        }
+    }
+    None
+}
+
 pub fn search(_pid: &str, oid: &str, seed: u64) -> Option<Found> {
     let mut rng = Rng::new(seed + 1);
     let f = oid.split('/').nth(1).unwrap_or("");
+    if oid.contains("newer_write_supersedes") && !oid.contains("_value") { return check_newer_supersedes(); }
     if f.starts_with("lemma:lemma_rv_merge_associative_all_kinds") {
         return check_aci(&mut rng, true, 2000);
     }
